@@ -217,4 +217,10 @@ def ctorRun : List CCall → Nat → Option Nat → Nat → Nat × Bool
 
 def ctor (nWatches : Nat) (failAt : Option Nat) : Nat × Bool := ctorRun (ctorCalls nWatches) 0 failAt 0
 
+/-- a failure that says "the entry is not there any more" (ENOENT, ENOTDIR): at `inotify_init`, `pipe()` or the root's own
+    `inotify_add_watch` (calls 0-2) it ends the constructor like any other; at the add-watch of a SUB-directory (calls 3..)
+    the walk skips the entry and goes on (repaired defect D25): the constructor succeeds -/
+def ctorTol (nWatches : Nat) (failAt : Nat) : Nat × Bool :=
+  if 3 ≤ failAt then ctor nWatches none else ctor nWatches (some failAt)
+
 end WD.Fd
